@@ -439,12 +439,14 @@ func init() {
 		c08ValueWithError(r)
 		c08SlowHandlers(r)
 		c08Messages(r)
+		c08Registration(r)
 	}
 	props["C09"] = func(r *Result, d *drv.Driver, tier string, seed int64, replay string) {
 		r.Rule = sessRule("C09 oracle: no call/response after a failed session auth; no call for rejected or uncheckable credentials; every call sees its own connection's session id/auth and its own request's auth value; plus one long-lived connection across a replacement of the request-authentication callback (rejecting / nil / other value): the callback in force when the request arrives decides.")
 		b, p := sizes(tier)
 		sessionCorrespondence(r, d, seed*31+9, b, p+2, scriptOpts{maxArr: 8, maxItems: 3, credHeavy: true}, 150*time.Millisecond, oracleC09)
 		c09Reconfigure(r)
+		c09PerOperation(r)
 		// the same on a single P: a burst of queued connections is accepted back to back before any session goroutine
 		// gets to run, so anything a session reads late from the accept loop's variables is read after the loop moved on
 		old := runtime.GOMAXPROCS(1)
@@ -466,5 +468,6 @@ func init() {
 		c15Partial(r)
 		c15Idle(r)
 		c15Trickle(r)
+		c15SlowHandshake(r)
 	}
 }
